@@ -34,6 +34,25 @@ struct Prog {
     must_reject: Option<usize>,
 }
 
+/// the fixed classes plus programs with many errors (an exit status is one byte: 256 errors must not read as success)
+fn progs() -> &'static Vec<Prog> {
+    static ALL: std::sync::OnceLock<Vec<Prog>> = std::sync::OnceLock::new();
+    ALL.get_or_init(|| {
+        let mut v: Vec<Prog> = PROGS.iter().map(|p| Prog { id: p.id, text: p.text, uses_std: p.uses_std, extra: p.extra, must_reject: p.must_reject }).collect();
+        for n in [255usize, 256, 257, 512] {
+            let mut t = String::new();
+            for i in 0..n {
+                t.push_str(&format!("f{} :: fn do\n    s := 1 + )\nend\n", i));
+            }
+            t.push_str("start :: fn do\nend\n");
+            let id: &'static str = Box::leak(format!("{}-syntax-errors", n).into_boxed_str());
+            let text: &'static str = Box::leak(t.into_boxed_str());
+            v.push(Prog { id, text: Some(text), uses_std: false, extra: &[], must_reject: Some(n) });
+        }
+        v
+    })
+}
+
 const PROGS: &[Prog] = &[
     Prog { id: "clean", text: Some("start :: fn do\n    x := 1 + 2\n    x <=> 3\nend\n"), uses_std: false, extra: &[], must_reject: None },
     Prog { id: "assert-fails", text: Some("start :: fn do\n    1 <=> 2\nend\n"), uses_std: false, extra: &[], must_reject: None },
@@ -95,7 +114,7 @@ pub fn run(run: &mut Run) {
     std::fs::create_dir_all(root.join("out")).unwrap();
     std::fs::create_dir_all(root.join("out/adir")).unwrap();
     let _ = std::os::unix::fs::symlink(&lua, root.join("bin/lua"));
-    for p in PROGS {
+    for p in progs().iter() {
         if let Some(t) = p.text {
             // projects with further files live in a directory of their own
             if p.extra.is_empty() {
@@ -114,7 +133,7 @@ pub fn run(run: &mut Run) {
     let pathdir = root.join("bin");
     let preamble = preamble_text().to_string();
     let mut seq = 0u64;
-    for p in PROGS {
+    for p in progs().iter() {
         let src = if p.extra.is_empty() { root.join("src").join(format!("{}.sy", p.id)) } else { root.join("src").join(p.id).join("main.sy") };
         let all_files = |t: &str| -> Files {
             let mut files = Files::new();
@@ -345,8 +364,8 @@ pub fn run(run: &mut Run) {
     st.transitions = st.evaluations;
     st.traces_validated = st.evaluations;
     run.stats = st;
-    run.rule = "full product of program class (clean, assertion fails, <!>, rejected with 1 and 2 errors, syntax error, std-using clean and failing, missing file, two-file projects: clean / error only in the imported file / syntax errors in importer and imported / in a chain of three files / `start` only in an imported module, `start` of the wrong type, errors on lines with multi-byte text and tabs, a std-free program whose locals are named like std modules) x --no-std x --require x -v x output mode (run, -o -, -o FILE over absent / existing / missing directory / is-a-directory); distinct by configuration; every configuration is non-trivial".into();
-    run.bounds = json!({"programs": PROGS.iter().map(|p| p.id).collect::<Vec<_>>()});
+    run.rule = "full product of program class (clean, assertion fails, <!>, rejected with 1 and 2 errors, syntax error, std-using clean and failing, missing file, two-file projects: clean / error only in the imported file / syntax errors in importer and imported / in a chain of three files / `start` only in an imported module, `start` of the wrong type, errors on lines with multi-byte text and tabs, a std-free program whose locals are named like std modules, programs with 255 / 256 / 257 / 512 syntax errors) x --no-std x --require x -v x output mode (run, -o -, -o FILE over absent / existing / missing directory / is-a-directory); distinct by configuration; every configuration is non-trivial".into();
+    run.bounds = json!({"programs": progs().iter().map(|p| p.id).collect::<Vec<_>>()});
     run.assumptions = vec![
         "`lua` on PATH is the MiniLua CLI".into(),
         "a non-zero exit on an unwritable output path is accepted, whatever its value; exit 0 must imply a complete file".into(),
